@@ -40,4 +40,17 @@ var plans = map[string]Plan{
 			"a race report or digest mismatch that depends on the schedule may not reproduce from the saved case; the saved race report is the artefact",
 		},
 	},
+	"C14": {
+		Pkg: "c14",
+		Runs: []Run{
+			{Test: "^TestProps$/^circuit$", Checks: checks(8000, 150000), Shards: shards(4, 16)},
+			{Test: "^TestExhaustive$", NoRapid: true, Shards: shards(1, 1)},
+		},
+		Assumptions: []string{
+			"first declared qubit is the most significant bit; for cx a,b the control is a (README Bell example)",
+			"each alias has its bmmatrix constructor's textbook meaning (p = S gate, r = phase shift, phase/ph = global phase e^{i theta} I, v/sx = sqrt(X), rx/ry/rz = exp(-i theta sigma/2))",
+			"tolerance 1e-4 per emitted matrix / circuit line (float32 arithmetic in the code, complex128 in the reference); global phase is not quotiented out",
+			"the undocumented `nextop` separator line is outside the domain (QasmToBmMatrices does not return on it)",
+		},
+	},
 }
